@@ -266,6 +266,11 @@ class FortranAST:
                 if include_ast.none_scope:
                     if include_ast.inc_scope is None:
                         include_ast.inc_scope = include_ast.none_scope
+                    # A file that (transitively) includes itself: its entities
+                    # already live in parent_scope, grafting them again would
+                    # extend the list being walked without end
+                    if include_ast.inc_scope is parent_scope:
+                        continue
                     # Remove old objects
                     for obj in added_entities:
                         parent_scope.children.remove(obj)
